@@ -241,41 +241,3 @@ fn c20_parse_u8_total() {
 	kani::cover!(n == 0, "empty component");
 	core::mem::forget(r);
 }
-
-// @verif property=C20 tier=thorough mem=24 timeout=3600
-// @encodes impl Display for peppi::io::slippi::Version -> to_string -> impl FromStr (real core::fmt, not stubbed)
-// @symbolic 24 version triple
-// @bound none in the version (all 2^24 triples)
-#[kani::proof]
-#[kani::unwind(8)]
-fn c20_display_parse_slippi() {
-	let v = Version(kani::any(), kani::any(), kani::any());
-	let s = v.to_string();
-	let r = Version::from_str(&s);
-	match &r {
-		Ok(w) => assert!(*w == v),
-		Err(_) => assert!(false),
-	}
-	kani::cover!(v.0 >= 100 && v.1 < 10, "mixed widths");
-	core::mem::forget(r);
-	core::mem::forget(s);
-}
-
-// @verif property=C20 tier=thorough mem=24 timeout=3600
-// @encodes impl Display for peppi::io::peppi::Version -> to_string -> impl FromStr (real core::fmt)
-// @symbolic 24 version triple
-// @bound none in the version
-#[kani::proof]
-#[kani::unwind(8)]
-fn c20_display_parse_peppi() {
-	let v = PVersion(kani::any(), kani::any(), kani::any());
-	let s = v.to_string();
-	let r = PVersion::from_str(&s);
-	match &r {
-		Ok(w) => assert!(*w == v),
-		Err(_) => assert!(false),
-	}
-	kani::cover!(v.2 >= 100, "three-digit patch");
-	core::mem::forget(r);
-	core::mem::forget(s);
-}
